@@ -246,7 +246,7 @@ func doCheck(prop, tier string, seed uint64, runsOverride, budgetOverride int) i
 			f.count++
 		}
 	}
-	fanOut(cfgs, 90*time.Second, deadline, each)
+	fanOut(cfgs, 240*time.Second, deadline, each)
 	_ = crashPoints
 	// restart recovery: every recorded crash point of the first phase becomes a run of its own that starts a fresh
 	// core (fresh process: no singleton survives), replays the frozen shim knowledge and carries on
@@ -264,7 +264,7 @@ func doCheck(prop, tier string, seed uint64, runsOverride, budgetOverride int) i
 			}
 		}
 		crashPoints = len(cfgs2)
-		fanOut(cfgs2, 90*time.Second, deadline, each)
+		fanOut(cfgs2, 240*time.Second, deadline, each)
 	}
 	if len(harnessTrouble) > 0 {
 		sort.Strings(harnessTrouble)
